@@ -1,0 +1,21 @@
+//go:build verif
+
+package proxy
+
+// Verification accessors for property C03 (UDP tunnels).
+
+// VerifCloseUDPWorkConn closes the current work connection of a udp proxy (as a network
+// failure would), which makes the proxy fetch a new one.  It reports whether p is a udp
+// proxy that had a work connection.
+func VerifCloseUDPWorkConn(p Proxy) bool {
+	pxy, ok := p.(*UDPProxy)
+	if !ok {
+		return false
+	}
+	c := pxy.workConn
+	if c == nil {
+		return false
+	}
+	_ = c.Close()
+	return true
+}
